@@ -18,6 +18,7 @@ CONSTANTS NH,     \* number of handles
 Handles == 1..NH
 DevStd == [ImplQueryEscape |-> FALSE, EmptyListKeepsQueryMark |-> FALSE, SkipEquals |-> FALSE]
 DevImpl == [ImplQueryEscape |-> TRUE, EmptyListKeepsQueryMark |-> TRUE, SkipEquals |-> FALSE]
+DevSkipEq == [ImplQueryEscape |-> TRUE, EmptyListKeepsQueryMark |-> TRUE, SkipEquals |-> TRUE]   \* WithSkipEqualsForEmptySearchParamsValue
 
 VARIABLES objs,    \* [Handles -> [live, u, params]]
           actor,   \* the handle the last action wrote (0 initially); history variable
